@@ -320,7 +320,7 @@ func (s *c10conc) plan(rng *common.RNG) {
 			emit(w, cop{Kind: opResolve, H: anyFor(w)})
 		case r < 89:
 			emit(w, cop{Kind: opString, H: anyFor(w)})
-		case r < 92:
+		case r < 91:
 			emit(w, cop{Kind: opArm, P: rng.Intn(len(s.hooks))})
 		case r < 97:
 			emit(w, cop{Kind: opOpen, P: rng.Intn(len(s.hooks))})
@@ -619,26 +619,27 @@ func (s *c10conc) worker(w int) {
 	for _, h := range s.hooks {
 		h.gate.open()
 	}
-	for _, b := range s.barriers {
-		b.force()
-	}
 }
 
-// barrier: two-party rendezvous built on a gate (so that the stall handler
-// and finishing workers release it).
+// barrier: best-effort two-party rendezvous.  The first arriver spins (with
+// Gosched) until the partner arrives or a bounded number of iterations has
+// passed, so crossed barriers can never stall the script.
 func (s *c10conc) barrier(id int) {
-	g := s.barriers[id]
 	s.barrMu.Lock()
 	s.barrCnt[id]++
 	n := s.barrCnt[id]
-	if n == 1 {
-		g.arm()
-	}
 	s.barrMu.Unlock()
-	if n == 1 {
-		g.pass()
-	} else {
-		g.open()
+	if n >= 2 {
+		return
+	}
+	for i := 0; i < 2000; i++ {
+		runtime.Gosched()
+		s.barrMu.Lock()
+		n = s.barrCnt[id]
+		s.barrMu.Unlock()
+		if n >= 2 {
+			return
+		}
 	}
 }
 
@@ -891,6 +892,12 @@ func runC10Conc(rec *common.Recorder, idx uint64, seed uint64) bool {
 			}
 		}
 	}
+	if ok && cc.numViol() > 0 {
+		// a violation (e.g. a panic that left a hook mutex locked) was
+		// already seen: the trace facts still hold, the end state is moot.
+		s.check()
+		ok = false
+	}
 	if ok {
 		// epilogue: release everything, fulfil the rest with nil (or not at all)
 		type act struct {
@@ -913,13 +920,19 @@ func runC10Conc(rec *common.Recorder, idx uint64, seed uint64) bool {
 			acts[i], acts[j] = acts[j], acts[i]
 		}
 		for _, a := range acts {
+			a := a
 			if a.h != nil {
-				s.doRelease(a.h)
+				ok = cc.run("epilogue Release", func() { s.doRelease(a.h) })
 			} else {
 				a.p.target = -1
-				s.fulfill(a.p)
+				ok = cc.run("epilogue Fulfill(nil)", func() { s.fulfill(a.p) })
+			}
+			if !ok {
+				break
 			}
 		}
+	}
+	if ok {
 		s.check()
 		for i, h := range s.hooks {
 			switch n := h.shutdowns(); {
@@ -930,9 +943,12 @@ func runC10Conc(rec *common.Recorder, idx uint64, seed uint64) bool {
 			}
 		}
 		for _, wk := range s.weaks {
-			if wk.valid && wk.w != nil {
+			wk := wk
+			if wk.valid && wk.w != nil && cc.numViol() == 0 {
 				var c *capnp.Client
-				cc.panicViolation("WeakClient.AddRef", common.Guard(func() { c, _ = wk.w.AddRef() }))
+				if !cc.run("WeakClient.AddRef", func() { c, _ = wk.w.AddRef() }) {
+					break
+				}
 				if c != nil {
 					cc.violate("C10/weak-upgrade-of-dead-hook", "WeakClient.AddRef succeeded after every strong reference was released", "")
 				}
@@ -959,8 +975,9 @@ func runC10Conc(rec *common.Recorder, idx uint64, seed uint64) bool {
 	if rec.WantSample() {
 		rec.Sample(map[string]interface{}{"mode": "c10conc", "index": idx, "scripts": s.scripts, "events": len(evs)})
 	}
+	hadViol := cc.numViol() > 0
 	cc.flush(map[string]interface{}{"scripts": s.scripts, "promises": s.promDesc(), "handles": s.handleDesc(), "events": tail(evs, 300)})
-	return !cc.dead
+	return !cc.dead && !hadViol
 }
 
 func (s *c10conc) promDesc() []map[string]interface{} {
